@@ -225,6 +225,13 @@ func (g *Gateway) proxyRewrite(preq *httputil.ProxyRequest) {
 	for _, header := range delHeaders {
 		out.Header.Del(header)
 	}
+	// the stdlib strips X-Forwarded-For/-Host/-Proto only; drop every other
+	// client-supplied X-Forwarded-* (Port, Ssl, Prefix, Server, ...) as well
+	for name := range out.Header {
+		if strings.HasPrefix(http.CanonicalHeaderKey(name), "X-Forwarded-") {
+			delete(out.Header, name)
+		}
+	}
 
 	preq.SetXForwarded()
 	if g.GatewayPort == 443 {
